@@ -131,10 +131,10 @@ CLAIMS['C10'] = {
 }
 CLAIMS['C15'] = {
     'text': 'MethodRegistry.add / _add_method / get / Method.__init__ under contract, with the map _registry as the abstract '
-            'view: registering stores the method under prefix+separator+name (name = explicit name or __name__), a second '
-            'registration of the same key raises and leaves the map unchanged, every other key keeps its entry (whole-view '
-            'postcondition), get returns exactly the stored entry or None; the decorator form returns the user function '
-            'itself.',
+            'view: registering stores the method under prefix+separator+name (name = explicit name or __name__), a later '
+            'registration under an existing key replaces the earlier one, every other key keeps its entry (whole-view '
+            'postcondition: the map changes at exactly one key), get returns exactly the stored entry or None (-> -32601 by '
+            'C03); the decorator form returns the user function itself.',
     'note': 'merge(), add_methods(), view() / MethodView registration are not yet under contract; function identity is a '
             'heap reference; __name__ of a callable is an uninterpreted string attribute',
 }
